@@ -40,7 +40,7 @@ ASSUMPTIONS = [
 ]
 EXHAUSTIVE_SCOPE = {
   "quick": "all histories of length 1..4 over the 10-op alphabet _ALPHABET, for max_buffers in {0,1,2}, miss_send_len 20",
-  "thorough": "all histories of length 1..5 over the 10-op alphabet _ALPHABET for max_buffers in {0,1,2}, and length 1..4 for max_buffers in {3,4}, miss_send_len 20",
+  "thorough": "all histories of length 1..6 over the 10-op alphabet _ALPHABET for max_buffers in {1,2}, and length 1..5 for max_buffers in {0,3,4}, miss_send_len 20",
 }
 
 PORTS = [1, 2, 3, 4]
@@ -369,10 +369,10 @@ _ALPHABET = [
 
 
 def _enum(tier):
-  deep = 5 if tier == "thorough" else 4
-  plans = [(mb, deep) for mb in (0, 1, 2)]
   if tier == "thorough":
-    plans += [(3, 4), (4, 4)]
+    plans = [(0, 5), (1, 6), (2, 6), (3, 5), (4, 5)]
+  else:
+    plans = [(0, 4), (1, 4), (2, 4)]
   for mb, depth in plans:
     for n in range(1, depth + 1):
       for combo in itertools.product(range(len(_ALPHABET)), repeat=n):
@@ -426,9 +426,9 @@ def plan(tier):
   if tier == "quick":
     return [
       Enum("histories-exhaustive", lambda: _enum("quick"), shards=16),
-      Hyp("histories-generated", lambda: _strategy(tier, 60), examples=1600, shards=16),
+      Hyp("histories-generated", lambda: _strategy(tier, 60), examples=4000, shards=16),
     ]
   return [
     Enum("histories-exhaustive", lambda: _enum("thorough"), shards=16),
-    Hyp("histories-generated", lambda: _strategy(tier, 60), examples=60000, shards=16),
+    Hyp("histories-generated", lambda: _strategy(tier, 60), examples=250000, shards=16),
   ]
